@@ -498,4 +498,4 @@ def run_shard(ctx):
         src, nt, feat, routes = check(doc)
         ctx.stats.case(key=src, nontrivial=nt, classes=sorted(feat) + (['three-definition-sources'] if routes == 3 else ['definitions-interleaved']),
                        n=routes, sample={'src': src})
-    hyp_run(ctx, doc_s, one, ctx.n(20000, 400000))
+    hyp_run(ctx, doc_s, one, ctx.n(20000, 200000))
